@@ -169,6 +169,11 @@ namespace msgpack {
                 binary::native_to_big(static_cast<uint32_t>(length),
                                       std::back_inserter(sink_));
             }
+            else
+            {
+                ec = msgpack_errc::too_many_items; // no MessagePack map header holds this length
+                JSONCONS_VISITOR_RETURN;
+            }
 
             JSONCONS_VISITOR_RETURN;
         }
@@ -224,6 +229,11 @@ namespace msgpack {
                 // array 32
                 sink_.push_back(jsoncons::msgpack::msgpack_type::array32_type);
                 binary::native_to_big(static_cast<uint32_t>(length),std::back_inserter(sink_));
+            }
+            else
+            {
+                ec = msgpack_errc::too_many_items; // no MessagePack array header holds this length
+                JSONCONS_VISITOR_RETURN;
             }
             JSONCONS_VISITOR_RETURN;
         }
@@ -409,6 +419,10 @@ namespace msgpack {
                 sink_.push_back(jsoncons::msgpack::msgpack_type::str32_type);
                 binary::native_to_big(static_cast<uint32_t>(length),std::back_inserter(sink_));
             }
+            else
+            {
+                JSONCONS_THROW(ser_error(msgpack_errc::too_many_items)); // no MessagePack string header holds this length
+            }
 
             for (auto c : sv)
             {
@@ -440,6 +454,10 @@ namespace msgpack {
                 // bin 32 stores a byte array whose length is upto (2^32)-1 bytes
                 sink_.push_back(jsoncons::msgpack::msgpack_type::bin32_type);
                 binary::native_to_big(static_cast<uint32_t>(length),std::back_inserter(sink_));
+            }
+            else
+            {
+                JSONCONS_THROW(ser_error(msgpack_errc::too_many_items)); // no MessagePack bin header holds this length
             }
 
             for (auto c : b)
